@@ -4,8 +4,11 @@ CONSTANTS Thr = {t1,t2,t3}
  ProcScope = "thread"
  DtorLocked = FALSE
  UsesPlanner = TRUE
+ TableScope = "proc"
+ TempScope = "call"
  DtorFrees = "all"
 INVARIANT Deterministic
+INVARIANT TablesAlive
 INVARIANT ScratchPrivate
 INVARIANT PlannerExclusive
 PROPERTY AllDone
